@@ -90,8 +90,10 @@ Guard(st, e) ==
                 ELSE IF e.res \notin {"ok", "fault"} THEN "replace.res"
                 ELSE ""
            [] e.op = "unlink" ->
-                IF r.pc # "unlinking" THEN "unlink.pc"
-                ELSE IF e.i # r.i THEN "unlink.name"
+                \* only a temp the writer holds right now may be removed (after __exit__, however it
+                \* ended, the writer holds nothing: a later round never touches an earlier round's name)
+                IF ~(r.pc \in Holding /\ e.i = r.i) THEN "unlink.own"
+                ELSE IF r.pc # "unlinking" THEN "unlink.pc"
                 ELSE IF e.res = "noent" /\ HasTmp(st, e.i) THEN "unlink.res"
                 ELSE IF e.res = "ok" /\ ~HasTmp(st, e.i) THEN "unlink.res"
                 ELSE IF e.res \notin {"ok", "noent", "fault"} THEN "unlink.res"
